@@ -144,6 +144,9 @@ func (w *World) raceDetected(msg string) {
 // visible is called at the start of a visible operation. It returns true when the scheduler
 // has granted the operation; otherwise the thread is parked with op pending.
 func (w *World) visible(th *Thread, op *pendingOp) bool {
+	if op.so != nil && len(w.eng.noSchedGlobals) > 0 && w.isNoSched(op.so) && (op.kind == opYield || w.enabledOp(op)) {
+		return true
+	}
 	if th.sync {
 		th.pending = op
 		if op.kind != opYield && !w.enabled(th) {
@@ -225,9 +228,32 @@ func (w *World) canRecv(ch *Chan) bool {
 	return len(ch.buf) > 0 || ch.closed
 }
 
+func (w *World) isNoSched(so *syncObj) bool {
+	if w.noSchedObjs == nil {
+		w.noSchedObjs = map[*syncObj]bool{}
+	}
+	if v, ok := w.noSchedObjs[so]; ok {
+		return v
+	}
+	res := false
+	for _, g := range w.eng.noSchedGlobals {
+		if p, ok := w.globals[g]; ok {
+			if w.syncObjs[p] == so {
+				res = true
+			}
+		}
+	}
+	w.noSchedObjs[so] = res
+	return res
+}
+
 // enabled reports whether the pending operation of th can execute now.
 func (w *World) enabled(th *Thread) bool {
-	op := th.pending
+	return w.enabledOp(th.pending)
+}
+
+func (w *World) enabledOp(op *pendingOp) bool {
+	var th *Thread
 	switch op.kind {
 	case opYield:
 		return true
@@ -458,6 +484,53 @@ func (w *World) fireTimer(t *timerObj) {
 	}
 }
 
+// ---- independence of pending operations (for sleep sets) ---------------------------------------
+
+// opObjects lists the synchronisation objects an operation touches; ok=false means "unknown: treat as
+// dependent with everything" (yields, atomics, context cancellation, timers).
+func opObjects(op *pendingOp) (objs []any, ok bool) {
+	if op == nil {
+		return nil, false
+	}
+	if op.so != nil {
+		objs = append(objs, op.so)
+	}
+	if op.so2 != nil {
+		objs = append(objs, op.so2)
+	}
+	if op.ch != nil {
+		objs = append(objs, op.ch)
+	}
+	for _, c := range op.cases {
+		if c.ch != nil {
+			objs = append(objs, c.ch)
+		}
+	}
+	if op.kind == opOnceWait {
+		objs = append(objs, op.val)
+	}
+	return objs, len(objs) > 0
+}
+
+func independentOps(a, b *pendingOp) bool {
+	oa, ok1 := opObjects(a)
+	ob, ok2 := opObjects(b)
+	if !ok1 || !ok2 {
+		return false
+	}
+	for _, x := range oa {
+		for _, y := range ob {
+			if x == y {
+				if a.reader && b.reader {
+					continue
+				}
+				return false
+			}
+		}
+	}
+	return true
+}
+
 // ---- the scheduler loop -----------------------------------------------------------------------
 
 // runQuiescent runs every thread that is not parked at a visible operation until all are.
@@ -491,6 +564,7 @@ func (w *World) threadCrashed(t *Thread) {
 
 func (w *World) schedule(main *Thread) {
 	var cur *Thread = main
+	sleep := map[*Thread]bool{}
 	for {
 		w.runQuiescent()
 		if main.done {
@@ -536,15 +610,19 @@ func (w *World) schedule(main *Thread) {
 			w.reportViolation("deadlock", "deadlock", "")
 			panic(pathEnd{kind: "violation", msg: "deadlock: " + desc})
 		}
-		// options: current thread first (no pre-emption), then the others, then eager timers
+		// options: current thread first (no pre-emption), then the others, then eager timers;
+		// threads in the sleep set are not offered (their operation commutes with everything executed
+		// since a sibling branch explored it first)
 		var opts []any
-		if curEnabled {
+		if curEnabled && !sleep[cur] {
 			opts = append(opts, cur)
 		}
-		canPreempt := !curEnabled || w.preempts < w.eng.cfg.Preempt
+		canPreempt := !curEnabled || w.preempts < w.eng.cfg.Preempt || sleep[cur]
 		if canPreempt {
 			for _, t := range en {
-				opts = append(opts, t)
+				if !sleep[t] {
+					opts = append(opts, t)
+				}
 			}
 			if w.eng.cfg.Timers == "eager" {
 				for _, t := range timers {
@@ -552,15 +630,34 @@ func (w *World) schedule(main *Thread) {
 				}
 			}
 		}
+		if len(opts) == 0 {
+			// every enabled operation is asleep: this interleaving is equivalent to one explored elsewhere
+			panic(pathEnd{kind: "pruned"})
+		}
 		k := w.choose(len(opts), DSched)
-		if curEnabled && k != 0 {
+		if curEnabled && !sleep[cur] && k != 0 {
 			w.preempts++
 		}
 		switch o := opts[k].(type) {
 		case *Thread:
+			if w.eng.cfg.SleepSets {
+				ns := map[*Thread]bool{}
+				for u := range sleep {
+					if !u.done && u.pending != nil && independentOps(u.pending, o.pending) {
+						ns[u] = true
+					}
+				}
+				for j := 0; j < k; j++ {
+					if u, ok := opts[j].(*Thread); ok && independentOps(u.pending, o.pending) {
+						ns[u] = true
+					}
+				}
+				sleep = ns
+			}
 			o.granted = true
 			cur = o
 		case *timerObj:
+			sleep = map[*Thread]bool{}
 			w.fireTimer(o)
 		}
 	}
